@@ -62,12 +62,14 @@ ATOMS = [(None, "null", "null"), (0, "0", "0"), (-1, "(-1)", "-1"), (2 ** 63 - 1
          (-2 ** 63, "(-9223372036854775808)", "-9223372036854775808"), (0.5, "0.5", "0.5"), (1e300, "1.0e300", "1e300"),
          ("", '""', '""'), ('a"\\\n', lit_str('a"\\\n'), json.dumps('a"\\\n')), ("é", '"é"', '"é"'),
          # 64-bit integers held in big representation (results of ^ and of arithmetic through a big intermediate): still integers in JSON
-         (8, "((2^70+8)-2^70)", "8"), (3 ** 35, "(3^35)", str(3 ** 35))]
+         (8, "((2^70+8)-2^70)", "8"), (3 ** 35, "(3^35)", str(3 ** 35)),
+         # floats whose shortest rendering needs an exponent
+         (1e-7, "1.0e-7", "1e-07"), (1.5e22, "1.5e22", "1.5e+22")]
 
 
 def json_values(tier):
     """(python value, noulith literal, json text)"""
-    atoms = ATOMS if tier != "quick" else [ATOMS[i] for i in (0, 1, 3, 4, 5, 8, 9, 10, 11)]
+    atoms = ATOMS if tier != "quick" else [ATOMS[i] for i in (0, 1, 3, 4, 5, 6, 8, 9, 10, 11, 12, 13)]
     lvl1 = list(atoms)
     # containers of depth 1
     cont = []
